@@ -112,6 +112,9 @@ def single(repo, report):
                 bad.append(("add_match", [e[2] for e in adds]))
             if rcs and not all(("True" if o == "rc" else "False") in e[2] or "bool(" in e[2] or e[2] in ("+1", "+0") for e in rcs):
                 bad.append(("per-adapter rc", [e[2] for e in rcs]))
+            # the per-adapter orientation tally is updated with every registered match (same loop, same statistics object)
+            if rcs and ([bool(e[4]) for e in rcs] != [bool(e[4]) for e in adds] or [e[1].rsplit(".", 1)[0] for e in rcs] != [e[1].rsplit(".", 1)[0] for e in adds]):
+                bad.append(("the per-adapter reverse-complement tally is not updated once per registered match", [(e[1], bool(e[4])) for e in rcs], [(e[1], bool(e[4])) for e in adds]))
         elif has is False:
             if wa or adds:
                 bad.append(("registered without match", r.describe()))
